@@ -55,6 +55,12 @@ def run_property(pid: str, tier: str, repo: str | None, only_rule: str | None = 
             code = selftest.run_audit(pid, mod, prog, rep)
         return code
     except AnalysisError as e:
+        rep_ = locals().get("rep")
+        if rep_ is not None and any(o.verdict == "violation" for o in rep_.obligations):
+            # a violation established by an earlier rule stands; the part that could not be analysed is named
+            rep_.note(f"analysis stopped early, later rules not evaluated: {e}")
+            rep_.rule_floor = {}
+            return rep_.finish(locals().get("prog"))
         print(f"ANALYSIS-ERROR property={pid} {e}")
         _error_evidence(pid, tier, str(e), time.time() - t0)
         return 2
